@@ -5,7 +5,7 @@
 (* declarative form; MC_ReadOps checks they agree on all small strings.     *)
 (* Sequences are Seq(0..127) of ASCII codes; indices 0-based half-open.     *)
 (***************************************************************************)
-EXTENDS Integers, Sequences, FiniteSets, EETable
+EXTENDS Bases, EETable
 
 CA == 65  CT == 84  CN == 78  Cn == 110
 
@@ -73,7 +73,6 @@ TrailStart(s) == IF \A i \in 1..Len(s) : s[i] = CN THEN 0
                  ELSE MaxOf({i \in 1..Len(s) : s[i] # CN})
 \* result as an interval <<lo, hi>> (0-based half-open); empty when the read is all N
 TrimNInterval(s) == IF LeadN(s) >= TrailStart(s) THEN <<0, 0>> ELSE <<LeadN(s), TrailStart(s)>>
-Slice(s, lo, hi) == SubSeq(s, lo + 1, hi)
 
 NCount(s) == Cardinality({i \in 1..Len(s) : s[i] = CN \/ s[i] = Cn})
 
